@@ -34,8 +34,17 @@ def _ensure_integer_ids(df: pd.DataFrame) -> pd.DataFrame:
         id_mapping = {
             original_id: new_id for new_id, original_id in enumerate(unique_ids, start=1)
         }
+        parent_ids = df["parent_id"]
+        mapped_parent_ids = parent_ids.map(id_mapping)
+        # cells without a parent are empty (nan or an empty string) or -1
+        no_parent = parent_ids.isna() | (parent_ids == -1) | (parent_ids == "")
+        unknown = parent_ids[mapped_parent_ids.isna() & ~no_parent]
+        if len(unknown) > 0:
+            raise ValueError(
+                f"Some parent ids are not in the 'id' column: {unknown.unique().tolist()}"
+            )
         df["id"] = df["id"].map(id_mapping)
-        df["parent_id"] = df["parent_id"].map(id_mapping).astype(pd.Int64Dtype())
+        df["parent_id"] = mapped_parent_ids.astype(pd.Int64Dtype())
 
     return df
 
